@@ -24,25 +24,26 @@ type Violation struct {
 }
 
 type Ctx struct {
-	Prop    string
-	Tier    string
-	Seed    uint64
-	Out     string
-	Replay  string
-	rng     uint64
-	ops     *bufio.Writer
-	impl    *bufio.Writer
-	opsF    *os.File
-	implF   *os.File
-	viol    *os.File
-	cases   int
-	evals   int
-	nviol   int
-	hist    map[string]map[string]int
-	samples []interface{}
-	nontriv map[string]struct{}
-	notes   []string
-	extra   map[string]interface{}
+	Prop       string
+	Tier       string
+	Seed       uint64
+	Out        string
+	Replay     string
+	rng        uint64
+	ops        *bufio.Writer
+	impl       *bufio.Writer
+	opsF       *os.File
+	implF      *os.File
+	viol       *os.File
+	cases      int
+	evals      int
+	nviol      int
+	nviolClass map[string]int
+	hist       map[string]map[string]int
+	samples    []interface{}
+	nontriv    map[string]struct{}
+	notes      []string
+	extra      map[string]interface{}
 }
 
 func (c *Ctx) Thorough() bool { return c.Tier == "thorough" }
@@ -136,8 +137,13 @@ func (c *Ctx) Note(s string) { c.notes = append(c.notes, s) }
 func (c *Ctx) Extra(k string, v interface{}) { c.extra[k] = v }
 
 func (c *Ctx) Violation(class, detail string, input interface{}) {
+	// the cap is per class: a frequent (e.g. known) class must never crowd out another one
 	c.nviol++
-	if c.nviol > 200 {
+	if c.nviolClass == nil {
+		c.nviolClass = map[string]int{}
+	}
+	c.nviolClass[class]++
+	if c.nviolClass[class] > 200 {
 		return
 	}
 	b, _ := json.Marshal(Violation{Class: class, Detail: detail, Input: input})
